@@ -21,4 +21,16 @@ CHECKS = {
         'note': 'Trusted: rustc MIR/trait resolution, Rust thread_local semantics, the rule engines. Assumes a hook does not hand a CErr pointer to another thread.',
     },
 }
+CHECKS['C17'] = {
+    'engine': 'E1 call graph + effects',
+    'level': 'proof',
+    'technique': 'transitive effect analysis on the MIR call graph: effect freedom of the pure entry points',
+    'design_ref': 'DESIGN.md section 4, C17',
+    'text': ('Proof by effect freedom over all call histories and schedules: the local bodies reachable from parse, (un)compress, both rename entry points and record synthesis '
+             '(fn items passed as values and closures are call edges) reference no static, thread-local or LocalKey, make no indirect call and no pointer<->integer conversion, '
+             'and every external callee belongs to a crate classified pure (core/std/alloc/byteorder/hex/chomp/anyhow) and matches none of the ambient-state deny patterns '
+             '(rand, time, env, fs, io, sockets, process, thread, RandomState/HashMap, sync, libc, uninitialised memory). rand is called only from ParsedPacket::empty and its value flows only into set_tid. '
+             'With no state surviving a call and no ambient input, equal arguments give equal results whatever ran before or runs concurrently.'),
+    'note': 'Trusted: the per-crate classification in tables/extern_effects.json (dependency MIR is not re-analysed), rustc MIR/trait resolution. Unclassified leaves fail closed.',
+}
 NOT_APPLICABLE = {('C%02d' % i): PENDING for i in range(1, 19) if ('C%02d' % i) not in CHECKS}
